@@ -155,7 +155,7 @@ def configs(tier):
     q = tier == "quick"
     cf = [dict(arch="dense1", A=2, L=3, B=1, ns=1, target=1), dict(arch="dense1", A=2, L=2, B=2, ns=2, target=0, batch_size=3),
           dict(arch="conv", A=2, L=2, B=1, ns=2, target=1), dict(arch="affine", A=2, L=3, B=1, ns=2, target=0, symw=True),
-          dict(arch="dense1w", A=2, L=2, B=1, ns=1, target=0), dict(arch="dense1", A=2, L=2, B=1, ns=2, target=1, n_shuffles_arg=1),
+          dict(arch="dense1", A=2, L=2, B=1, ns=2, target=1, n_shuffles_arg=1),
           dict(arch="dense1", A=2, L=2, B=1, ns=1, target=0, history_ops=True)]
     # depth 2-3: every (example, reference) pair of sequences is enumerated, the activations stay uninterpreted
     import itertools as _it
@@ -163,11 +163,11 @@ def configs(tier):
         seqs = [list(s_) for s_ in _it.product(range(A), repeat=L)]
         pairs = [(a, b) for a in seqs for b in seqs]
         return [dict(arch=arch, A=A, L=L, B=1, ns=1, target=(k % 2), x=[a], refs=[[b]]) for k, (a, b) in enumerate(pairs) if k % every == 0]
-    cf += deep("dense2", 2, 2, 2 if q else 1)
+    cf += deep("dense2", 2, 2, 3 if q else 1)
     if not q:
         cf += deep("dense3", 2, 2, 1) + deep("conv2", 2, 4, 5) + deep("dense2", 2, 3, 3)
     if not q:
-        cf += [dict(arch="conv", A=2, L=3, B=1, ns=1, target=1), dict(arch="convavg", A=2, L=3, B=1, ns=1, target=1),
+        cf += [dict(arch="conv", A=2, L=3, B=1, ns=1, target=1), dict(arch="convavg", A=2, L=3, B=1, ns=1, target=1), dict(arch="dense1w", A=2, L=2, B=1, ns=1, target=0),
                dict(arch="dense1w", A=2, L=3, B=1, ns=1, target=0), dict(arch="convpad", A=2, L=3, B=1, ns=1, target=1),
                dict(arch="conv", A=3, L=3, B=1, ns=2, target=0, batch_size=1), dict(arch="affine", A=3, L=4, B=2, ns=2, target=1, symw=True),
                dict(arch="dense2", A=2, L=2, B=1, ns=1, target=1, stretch=True)]
